@@ -400,7 +400,6 @@ class Gen:
         self.dirty = False              # a write may have reached the head since the last snapshot
         self.hasdata = {}               # snapshot id -> may hold data
         self.block_rate = 0.07          # rate of operations made to fail by an obstacle
-        self.block_known = False        # also the three shapes of known findings (snapshot / resize / set-checkpoint at volume.meta.tmp)
         self.replace_rate = 0.05        # rate of ReplaceDisk requests
 
     def replace_op(self):
@@ -478,10 +477,8 @@ class Gen:
         if len(ops) == 1 and ops[0]["op"] in self.BLOCKABLE and self.created and self.rng.random() < self.block_rate:
             o = ops[0]
             blk = [("voltmp",)]
-            if o["op"] in ("snap", "revert") and (self.rng.random() < 0.3 or (o["op"] == "snap" and not self.block_known)):
+            if o["op"] in ("snap", "revert") and self.rng.random() < 0.3:
                 blk = [("metatmp", ("h", snapshot[4] + 1))]
-            if o["op"] in ("resize", "checkpoint") and not self.block_known:
-                return ops              # (known findings: the in-memory value is set before the write; dedicated histories only)
             o["blk"] = blk
             if o["op"] == "snap":
                 self.hasdata[o["s"]] = True
